@@ -1,5 +1,6 @@
 """C05 — variable scoping: locals end with their element, globals persist."""
 import builtins
+import re
 import html
 
 import core
@@ -10,12 +11,14 @@ PID = 'C05'
 PROOF_MODULES = ['ChamProofs.Props.C05', 'ChamProofs.Props.C05Eval']
 THEOREMS = ['ChamVerif.C05_bracket_restores', 'ChamVerif.C05_bracket_frame', 'ChamVerif.ScopeStore.C05_copy_sees_same',
             'ChamVerif.ScopeStore.C05_copy_local_private', 'ChamVerif.ScopeStore.C05_global_through_copy',
-            'ChamVerif.Dict.get_set_same', 'ChamVerif.Dict.get_set_other', 'ChamVerif.Root.rk_all', 'ChamVerif.C05_local_define_restores']
+            'ChamVerif.Dict.get_set_same', 'ChamVerif.Dict.get_set_other', 'ChamVerif.Root.rk_all', 'ChamVerif.C05_local_define_restores',
+            'ChamVerif.C05_repeat_restores']
 LEVEL_TEXT = ('Proved in Lean on the whole interpreter model: when an element with a local tal:define of a name is finished, the name is bound to '
               'exactly what it was bound to before — the outer binding visible again unchanged, or undefined again — for every body (macro '
               'calls, repeats, on-error, global definitions of the same name included), scope, state and fuel (C05_local_define_restores, '
               'using rk_all: the root dictionary of a scope is constant within a function, by induction on the fuel over the four '
-              'evaluator functions and every node kind). On the dictionary level, for every dictionary, name and value: the backup/restore bracket the compiler puts around every local '
+              'evaluator functions and every node kind); the same for the loop variable of a local tal:repeat, after any number of iterations '
+              '(C05_repeat_restores). On the dictionary level, for every dictionary, name and value: the backup/restore bracket the compiler puts around every local '
               'assignment re-establishes the previous binding, present or absent alike, and touches no other name (C05_bracket_restores, '
               'C05_bracket_frame); on the two-level Scope store: a copy (the scope a macro or slot filler runs in) sees exactly the '
               'original\'s bindings, its local assignments never reach the original, and a set_global through it is what the original '
@@ -32,7 +35,18 @@ RULE = ('(a) random operation sequences (length <= 12 quick / 40 thorough) on ut
 TRUSTED = []
 ASSUMPTIONS = ['probe values are plain ints/strs (their str() is what the probe shows)']
 
-POOL = ['a', 'b', 'x', 'len', 'str', 'id', 'type', 'list', 'get', 'getname', 're', 'functools', 'intern', 'convert', 'target_language']
+POOL = ['a', 'b', 'x', 'len', 'str', 'id', 'type', 'list', 'get', 'getname', 're', 'functools', 'intern', 'convert', 'target_language',
+        # names the engine itself looks up while evaluating *other* expressions (exception classes of pipes and exists:)
+        'NameError', 'AttributeError', 'LookupError', 'TypeError', 'ValueError', 'Exception', 'KeyError']
+# another expression, next to every probe: a pipe whose first alternative raises, and an exists: of an unbound name
+OTHER = "{${nosuch_qq | 'F'}${exists: nosuch_qq}}"
+OTHER_OUT = '{F0}'
+
+
+def with_other(src, exp, probes):
+    for P in probes:
+        src = src.replace(P, P + OTHER)
+    return src, re.sub(r'(\[[^\]]*\])', lambda m: m.group(1) + OTHER_OUT, exp)
 
 
 def scope_ops(rng, n):
@@ -167,6 +181,7 @@ def family(rng, count):
                 src = '%s%s<i tal:repeat="(%s, %s) [(\'%s\', \'%s\')]">%s%s</i>%s%s' % (P, Pm, n, m, v1, v2, P, Pm, P, Pm)
                 exp = '[%s][%s]<i>[%s][%s]</i>[%s][%s]' % (s(env0), sm(init_m), v1, v2, s(env0), sm(init_m))
             vars_ = ([[n, {'str': init}]] if init else []) + ([[m, {'str': init_m}]] if init_m else [])
+            src, exp = with_other(src, exp, [P, Pm])
             cases.append(({'src': src, 'vars': vars_, 'objs': []}, exp, n))
             continue
         elif kind == 'macro-global':
@@ -185,8 +200,9 @@ def family(rng, count):
             exp = '[%s]<div><i>[%s]</i>[%s]</div>[%s]' % (s(env0), v1, s(env0), s(env0))
         # the repeat separator: "\n" + indentation; keep everything on one line and account for it
         if 'repeat' in kind and kind == 'repeat':
-            exp = exp.replace('</i><i>', '</i>\n' + ' ' * len(P) + '<i>')   # "\n" + one space per character of the preceding source line
+            exp = exp.replace('</i><i>', '</i>\n' + ' ' * (len(P) + len(OTHER)) + '<i>')   # "\n" + one space per character of the preceding source line
         vars_ = [[n, {'str': init}]] if init else []
+        src, exp = with_other(src, exp, [P])
         cases.append(({'src': src, 'vars': vars_, 'objs': []}, exp, n))
     return cases
 
